@@ -65,13 +65,18 @@ type gboard struct {
 	Objs    []*gobj
 	Inherit []string // markers expected in the board's file besides its own
 	ImpFile string   // non-empty: the board's body lives in this file and is imported (`name: @file`)
+	Empty   bool     // no content of its own (folder-only board): no marker, no objects
 }
 
 type gobj struct {
-	Path  string // object path inside the board, e.g. c1.o2
+	Path  string // object path inside the board in d2 syntax, e.g. c1.o2 or "layers".o3
+	Segs  []seg  // its elements
 	Raw   string // link value as written
+	Want  *gboard // the board the link is meant to reach (nil: none / not a plain board reference)
 	Board *gboard
 }
+
+func normID(id string) string { return strings.ReplaceAll(id, "\"", "") }
 
 var kinds = []string{"layers", "scenarios", "steps"}
 var simpleNames = []string{"a", "b", "c", "x", "y", "z", "home", "n1", "n2"}
@@ -157,13 +162,22 @@ func genTree(r *rand.Rand, c *hl.Ctx) *gboard {
 	root := mk(nil, "", "", 0)
 	var all []*gboard
 	root.all(&all)
+	// boards without content of their own: an empty root that only declares boards, grouping layers
+	for _, b := range all {
+		hasKids := len(b.Kids["layers"])+len(b.Kids["scenarios"])+len(b.Kids["steps"]) > 0
+		if hasKids && (b.Kind == "" || b.Kind == "layers") && r.Intn(5) == 0 {
+			b.Empty = true
+			c.Count("folder-only-board")
+		}
+	}
 	// markers inherited by scenarios / steps
 	for _, b := range all {
-		if b.Kind == "scenarios" {
-			b.Inherit = []string{b.Parent.Marker}
+		if b.Kind == "scenarios" || b.Kind == "steps" {
+			if !b.Parent.Empty {
+				b.Inherit = []string{b.Parent.Marker}
+			}
 		}
 		if b.Kind == "steps" {
-			b.Inherit = []string{b.Parent.Marker}
 			for _, s := range b.Parent.Kids["steps"] {
 				if s == b {
 					break
@@ -191,17 +205,44 @@ func genTree(r *rand.Rand, c *hl.Ctx) *gboard {
 	// link objects (root and layers only)
 	oid := 0
 	for _, b := range all {
-		if b.Kind != "" && b.Kind != "layers" {
+		if (b.Kind != "" && b.Kind != "layers") || b.Empty {
 			continue
 		}
 		for i, k := 0, r.Intn(4); i < k; i++ {
 			oid++
-			o := &gobj{Board: b, Path: fmt.Sprintf("o%d", oid)}
-			if r.Intn(4) == 0 {
-				o.Path = fmt.Sprintf("c%d.o%d", oid, oid)
+			o := &gobj{Board: b}
+			pick := r.Intn(8)
+			if b.impRoot() != nil && (pick == 2 || pick == 3) {
+				// inside an imported file d2 rejects a link below a container named like a board keyword, quoted or not
+				// ("a board itself cannot be linked": extendLinks → NodeBoardKind ignores the quoting); not generated
+				pick = 4
 			}
+			switch pick {
+			case 0, 1:
+				o.Segs = []seg{{fmt.Sprintf("c%d", oid), true}, {fmt.Sprintf("o%d", oid), true}}
+			case 2: // an ordinary container that is merely NAMED like a board keyword (quoted key)
+				o.Segs = []seg{{kinds[r.Intn(3)], false}, {fmt.Sprintf("o%d", oid), true}}
+				c.Count("scope:quoted-keyword-container")
+			case 3:
+				o.Segs = []seg{{fmt.Sprintf("c%d", oid), true}, {kinds[r.Intn(3)], false}, {fmt.Sprintf("o%d", oid), true}}
+				c.Count("scope:quoted-keyword-container")
+			default:
+				o.Segs = []seg{{fmt.Sprintf("o%d", oid), true}}
+			}
+			var parts []string
+			for _, sg := range o.Segs {
+				if sg.Unq {
+					parts = append(parts, sg.S)
+				} else {
+					parts = append(parts, "\""+sg.S+"\"")
+				}
+			}
+			o.Path = strings.Join(parts, ".")
 			t := all[r.Intn(len(all))]
-			o.Raw = genLink(r, c, b, t, all)
+			o.Raw, o.Want = genLink(r, c, b, t, all)
+			if o.Want != nil && o.Want == b {
+				o.Want = nil // a link to the board itself is dropped by design
+			}
 			b.Objs = append(b.Objs, o)
 		}
 	}
@@ -219,35 +260,38 @@ func relDown(from, to *gboard) (string, bool) { // to is a descendant of from
 	return strings.Join(parts, "."), len(parts) > 0
 }
 
-func genLink(r *rand.Rand, c *hl.Ctx, from, to *gboard, all []*gboard) string {
+func genLink(r *rand.Rand, c *hl.Ctx, from, to *gboard, all []*gboard) (string, *gboard) {
 	switch r.Intn(12) {
 	case 0:
 		c.Count("link:remote")
-		return []string{"https://example.com/x", "/abs/path", "mailto:a@b.c"}[r.Intn(3)]
+		return []string{"https://example.com/x", "/abs/path", "mailto:a@b.c"}[r.Intn(3)], nil
 	case 1:
 		c.Count("link:absolute")
-		return to.key()
+		if from.impRoot() != nil {
+			return to.key(), nil // inside an imported file `root` is the file's own root: rebased, not the global board
+		}
+		return to.key(), to
 	case 2:
 		c.Count("link:self")
 		if from.Parent == nil {
-			return "root"
+			return "root", nil
 		}
-		return from.key()
+		return from.key(), nil
 	case 3:
 		c.Count("link:missing")
 		if s, ok := relDown(from, to); ok {
-			return s + ".layers.nope"
+			return s + ".layers.nope", nil
 		}
-		return "layers.nope"
+		return "layers.nope", nil
 	case 4:
 		c.Count("link:odd")
-		return []string{"layers.x.x", "Layers.a", "\"layers\".a", "x.y", "layers", "_", "_._._._", "steps.a.b", "root.layers", "root.root.layers.a"}[r.Intn(10)]
+		return []string{"layers.x.x", "Layers.a", "\"layers\".a", "x.y", "layers", "_", "_._._._", "steps.a.b", "root.layers", "root.root.layers.a"}[r.Intn(10)], nil
 	case 5:
 		c.Count("link:odd-tail")
 		if s, ok := relDown(from, to); ok {
-			return s + "." + keyOf(to.Name)
+			return s + "." + keyOf(to.Name), nil
 		}
-		return "layers.a.a"
+		return "layers.a.a", nil
 	}
 	// relative: up with underscores to the common ancestor, then down
 	anc := from
@@ -255,17 +299,17 @@ func genLink(r *rand.Rand, c *hl.Ctx, from, to *gboard, all []*gboard) string {
 	for {
 		if s, ok := relDown(anc, to); ok {
 			c.Count(fmt.Sprintf("link:relative(up=%d)", ups))
-			return strings.Repeat("_.", ups) + s
+			return strings.Repeat("_.", ups) + s, to
 		}
 		if anc == to {
 			c.Count(fmt.Sprintf("link:ancestor(up=%d)", ups))
 			if ups == 0 {
-				return "layers.a"
+				return "layers.a", nil
 			}
-			return strings.TrimSuffix(strings.Repeat("_.", ups), ".")
+			return strings.TrimSuffix(strings.Repeat("_.", ups), "."), to
 		}
 		if anc.Parent == nil {
-			return to.key()
+			return to.key(), nil
 		}
 		anc = anc.Parent
 		ups++
@@ -295,7 +339,9 @@ func (b *gboard) fileIDA() []seg {
 }
 
 func (b *gboard) d2(ind string, sb *strings.Builder, files map[string]string) {
-	fmt.Fprintf(sb, "%s%s\n", ind, b.Marker)
+	if !b.Empty {
+		fmt.Fprintf(sb, "%s%s\n", ind, b.Marker)
+	}
 	for _, o := range b.Objs {
 		val := o.Raw
 		if strings.ContainsAny(val, ":#") {
@@ -341,7 +387,7 @@ func graphTree(g *d2graph.Graph, path []string) map[string]any {
 			continue
 		}
 		v := o.Link.Value
-		objs = append(objs, map[string]any{"id": o.AbsID(), "link": v, "segs": segsOf(v), "remote": isRemote(v)})
+		objs = append(objs, map[string]any{"id": normID(o.AbsID()), "link": v, "segs": segsOf(v), "remote": isRemote(v)})
 	}
 	return map[string]any{"name": g.Name, "folderOnly": g.IsFolderOnly, "ida": path, "goIDA": g.IDA(), "objs": objs,
 		"layers": sub("layers", g.Layers), "scenarios": sub("scenarios", g.Scenarios), "steps": sub("steps", g.Steps)}
@@ -382,26 +428,32 @@ func boardsInfo(root *gboard) []map[string]any {
 	for _, b := range all {
 		objs := []any{}
 		for _, o := range b.Objs {
-			scope := append([]seg{}, b.ida()...)
-			for _, p := range strings.Split(o.Path, ".") {
-				scope = append(scope, seg{p, true})
-			}
-			fscope := append([]seg{}, b.fileIDA()...)
-			for _, p := range strings.Split(o.Path, ".") {
-				fscope = append(fscope, seg{p, true})
+			scope := append(append([]seg{}, b.ida()...), o.Segs...)
+			fscope := append(append([]seg{}, b.fileIDA()...), o.Segs...)
+			var want any
+			if o.Want != nil {
+				w := []string{}
+				for _, sg := range o.Want.ida() {
+					w = append(w, sg.S)
+				}
+				want = w
 			}
 			var imp any
 			if ir := b.impRoot(); ir != nil {
 				imp = ir.ida()
 			}
-			objs = append(objs, map[string]any{"path": o.Path, "raw": o.Raw, "rawSegs": segsOf(o.Raw), "remote": isRemote(o.Raw), "scope": scope,
+			objs = append(objs, map[string]any{"path": normID(o.Path), "want": want, "raw": o.Raw, "rawSegs": segsOf(o.Raw), "remote": isRemote(o.Raw), "scope": scope,
 				"fileScope": fscope, "imp": imp})
 		}
 		inh := b.Inherit
 		if inh == nil {
 			inh = []string{}
 		}
-		out = append(out, map[string]any{"ida": b.ida(), "marker": b.Marker, "inherit": inh, "objs": objs, "inherits": b.Kind == "scenarios" || b.Kind == "steps"})
+		mk := b.Marker
+		if b.Empty {
+			mk = ""
+		}
+		out = append(out, map[string]any{"ida": b.ida(), "marker": mk, "inherit": inh, "objs": objs, "inherits": b.Kind == "scenarios" || b.Kind == "steps"})
 	}
 	return out
 }
@@ -448,7 +500,7 @@ func observe(c *hl.Ctx, idx int, src string, files map[string]string, boards []m
 		hrefs := []any{}
 		for _, m := range hrefRE.FindAllStringSubmatch(txt, -1) {
 			id, _ := base64.StdEncoding.DecodeString(m[2])
-			hrefs = append(hrefs, map[string]any{"id": string(id), "href": html.UnescapeString(m[1])})
+			hrefs = append(hrefs, map[string]any{"id": normID(string(id)), "href": html.UnescapeString(m[1])})
 		}
 		if ms == nil {
 			ms = []string{}
@@ -470,16 +522,45 @@ func emitAll(c *hl.Ctx, res map[string]any) {
 	if !ok {
 		return
 	}
+	seen := map[string]bool{}
+	focus := func(board any, id any) {
+		key := fmt.Sprint(board, "|", id)
+		if seen[key] {
+			return
+		}
+		seen[key] = true
+		in := map[string]any{}
+		for k, v := range res["in"].(map[string]any) {
+			in[k] = v
+		}
+		in["focus"] = map[string]any{"board": board, "id": id}
+		c.Emit(map[string]any{"k": "links", "in": in, "out": o})
+		c.Count("property-lines")
+	}
+	// every object the generator gave a link (also those whose link did not survive) …
+	if gbs, ok := res["in"].(map[string]any)["boards"].([]map[string]any); ok {
+		for _, gb := range gbs {
+			ida := []string{}
+			switch v := gb["ida"].(type) {
+			case []seg:
+				for _, sg := range v {
+					ida = append(ida, sg.S)
+				}
+			case []any: // replayed from JSON
+				for _, e := range v {
+					ida = append(ida, fmt.Sprint(e.(map[string]any)["s"]))
+				}
+			}
+			for _, x := range gb["objs"].([]any) {
+				focus(ida, x.(map[string]any)["path"])
+			}
+		}
+	}
+	// … and every object observed with a link (inherited ones included)
 	var walk func(b map[string]any)
 	walk = func(b map[string]any) {
 		for _, x := range b["objs"].([]any) {
-			in := map[string]any{}
-			for k, v := range res["in"].(map[string]any) {
-				in[k] = v
-			}
-			in["focus"] = map[string]any{"board": b["ida"], "id": x.(map[string]any)["id"]}
-			c.Emit(map[string]any{"k": "links", "in": in, "out": o})
-			c.Count("property-lines")
+			focus(b["ida"], x.(map[string]any)["id"])
 		}
 		for _, k := range kinds {
 			for _, s := range b[k].([]any) {
